@@ -48,6 +48,8 @@ static uint8 *paletteBuf = NULL;
 static uint16 Refset     = 0;  /* Ref of image to get next */
 static uint16 Lastref    = 0;  /* Last ref read/written */
 static uint16 Writeref   = 0;  /* ref of next image to put in this file */
+static uint16 Lastrigref = 0;  /* ref of the raster image group read last (a RIG's ref need not be
+                                  the ref of its image: groups written by the GR interface) */
 static int    foundRig   = -1; /* -1: don't know if HDF file has RIGs
                                     0: No RIGs, try for RI8s etc.
                                     1: RIGs used, ignore RI8s etc. */
@@ -1224,6 +1226,7 @@ DFR8Iopen(const char *filename, int acc_mode)
         Refset   = 0;  /* no ref to get set for this file */
         Newdata  = 0;
         Readrig  = Zrig; /* blank out read/write RIGs */
+        Lastrigref = 0;
         Writerig = Zrig;
         if (Newpalette != (-1))
             Newpalette = 1; /* need to write out palette */
@@ -1274,13 +1277,13 @@ DFR8Iriginfo(int32 file_id)
     HEclear();
     /* find next rig */
     if (foundRig) { /* either RIGs present or don't know */
-        if (!Refset && Readrig.image.ref)
-            aid = Hstartread(file_id, DFTAG_RIG, Readrig.image.ref);
+        if (!Refset && Lastrigref)
+            aid = Hstartread(file_id, DFTAG_RIG, Lastrigref);
         do {
             if (Refset)
                 aid = Hstartread(file_id, DFTAG_RIG, Refset);
             else {
-                if (!Readrig.image.ref)
+                if (!Lastrigref)
                     aid = Hstartread(file_id, DFTAG_RIG, DFREF_WILDCARD);
                 else {
                     if (aid != FAIL && Hnextread(aid, DFTAG_RIG, DFREF_WILDCARD, DF_CURRENT) == FAIL) {
@@ -1300,6 +1303,7 @@ DFR8Iriginfo(int32 file_id)
             if (aid != FAIL) {
                 Hinquire(aid, (int32 *)NULL, (uint16 *)NULL, &ref, (int32 *)NULL, (int32 *)NULL,
                          (int32 *)NULL, (int16 *)NULL, (int16 *)NULL);
+                Lastrigref = ref; /* continue from this group next time */
                 if (DFR8getrig(file_id, ref, &Readrig) == FAIL) {
                     if (Refset || (HEvalue(1) != DFE_BADCALL)) {
                         Refset = 0;
